@@ -500,7 +500,7 @@ func runC17(c *core.Ctx) core.Meta {
 		if s, ok := storeToField(in, "bankPipelineItem.readData"); ok {
 			st5.Instances++
 			pv := prov.Of(s.Val)
-			ok2 := core.ProvMatch(regexp.MustCompile(`^recv\.Storage\.Read\(.*` + item + `\.Address.*,.*` + item + `\.AccessByteSize\)$`), pv)
+			ok2 := core.ProvMatch(regexp.MustCompile(`^recv\.Storage\.Read\(.*`+item+`\.Address.*,.*`+item+`\.AccessByteSize\)$`), pv)
 			st5.Ob(ok2)
 			st5.Sample("%s: readData = %s", core.FuncName(fn), short(pv))
 			if !ok2 {
@@ -511,7 +511,7 @@ func runC17(c *core.Ctx) core.Meta {
 			st5.Instances++
 			args := core.CallOf(in).Args
 			a := prov.Of(args[len(args)-2])
-			ok2 := core.ProvMatch(regexp.MustCompile(item + `\.Address`), a)
+			ok2 := core.ProvMatch(regexp.MustCompile(item+`\.Address`), a)
 			st5.Ob(ok2)
 			if !ok2 {
 				c.ReportAt("R17.5", fn, in.Pos(), "write:address", "a write is committed at "+short(a)+" rather than at the request's address")
